@@ -55,7 +55,8 @@ fn check_ep(ep: &EnergyPerformance, cfg: &str, out: &mut Out) {
     }
     out.nontrivial = true;
     let rer = ep.rer as f64;
-    let s = 1e-4;
+    // ratios are quotients by the total: energy tolerance / total
+    let s = 1e-4 + 2.0 * subj::tol(mag) / tot;
     if !close(rer, ren / tot, s) {
         out.viol("rer_is_ren_over_total", &feats, cfg, format!("rer={rer}"), format!("{}", ren / tot));
     }
